@@ -393,6 +393,9 @@ func (w *World) MakeTxn(s TxnSpec) *transaction.Transaction {
 	t.CreationDate = s.Time
 	if s.Type == transaction.TxnTypeSmartContract {
 		in := s.RawInput
+		if in != nil && len(in) == 0 {
+			in = []byte("null")
+		}
 		if in == nil {
 			var err error
 			in, err = json.Marshal(s.Input)
